@@ -17,7 +17,7 @@ Separate Extraction
   Lexer.lex_string Lexer.token_location Lexer.lex_next_nonws Lexer.lex_new
   Fmt.format_cell Fmt.fmt_cell
   Vm.run Vm.next Vm.rnext Vm.push_data Vm.pop_data Vm.set_rlog Vm.set_limits Vm.set_meter Vm.set_var Vm.get_var
-  Vm.set_out Vm.data_depth Vm.is_running
+  Vm.set_out Vm.data_depth Vm.is_running Vm.dict_entry
   Words.native_fn Words.w_open_bitstr Words.R_OUTPUT
   Build.eval Build.compile
   Boot.boot Boot.fops_with F64c.f64_of_int F64c.f64_to_int F64c.f64_round F64c.f32_to_f64 F64c.f64_to_f32.
